@@ -11,7 +11,7 @@
      COpq  -> same pointer (shared), except the ones the code drops (-> NULL)
      CLink -> same object index, except the cached object pointers (-> NULL:
               dist->objs[], memattr target / initiator objects)
-     fields the code never writes -> CUndef
+     fields the code never writes -> CUndef (none left since fix 52a0c75 copies the grouping settings)
 
    The block sizes come from Gen/Tables.v (sizeof of the current structs).
    The order of the requests in C differs from the pre-order of the ownership
@@ -41,6 +41,7 @@ Definition P_GROUPING_FIRST := 78.  Definition P_GROUPING_LAST := 86.  Definitio
 Definition P_PCI_BACKEND := 88.     Definition P_PHASES := 89.         Definition P_EXCL_PHASES := 90.
 Definition P_TMA := 91.             Definition TOPO_NVALS := 92.
 Definition P_SLEVEL_FIRST := 98.    Definition P_SLEVEL_LAST := 103.   Definition P_KINDS := 112.
+Definition P_MEMATTRS := 111.
 (* struct hwloc_obj *)
 Definition P_OBJ_USERDATA := 12.    Definition P_OBJ_ATTR := 18.       Definition P_OBJ_PAGETYPES := 21.  Definition P_OBJ_CHILDREN := 29.
 Definition OBJ_NPRE := 18.
@@ -57,7 +58,6 @@ Definition ncell_leaf (nobj k i : N) (all : list cell) (c : cell) : cell :=
       else if i =? P_NEXT_GP then CV (v + (nobj - 1))               (* hwloc_alloc_setup_object bumps it for every non-root object *)
       else if i =? P_ADOPT_LEN then CV 0
       else if i =? P_NR_KINDS_ALLOC then nth (N.to_nat P_NR_KINDS) all (CV v)   (* nr_cpukinds_allocated = old->nr_cpukinds *)
-      else if (P_GROUPING_FIRST <=? i) && (i <=? P_GROUPING_LAST) then CUndef   (* grouping*: never written *)
       else if (i =? P_PHASES) || (i =? P_EXCL_PHASES) then CV 0    (* hwloc_topology_components_init *)
       else CV v
     else if k =? K_DIST then
@@ -71,12 +71,18 @@ Definition ncell_leaf (nobj k i : N) (all : list cell) (c : cell) : cell :=
          || ((P_SLEVEL_FIRST <=? i) && (i <=? P_SLEVEL_LAST)) || (i =? P_KINDS)
       then CNull else COpq g
     else if (k =? K_OBJ) && (i =? P_OBJ_CHILDREN) then CNull
-    else COpq g             (* obj.userdata, callbacks; and, as the code stands, page_types / targets / initiators pointers of empty arrays *)
+    else if (k =? K_MEMATTRS) && (i mod MEMATTR_STRIDE =? 4) then CNull     (* nr_targets == 0: nimattr->targets = NULL (fix 4d6acad) *)
+    else COpq g             (* obj.userdata, callbacks; and, as the code stands, the page_types / initiators pointers of empty arrays *)
   | CLink id =>
     if k =? K_DOBJS then CNull
     else if (k =? K_TARGETS) && (i mod TARGET_STRIDE =? 0) then CNull
     else if (k =? K_INITIATORS) && (i mod INITIATOR_STRIDE =? 1) then CNull
     else CLink id
+  | CNull =>
+    (* hwloc_internal_memattrs_dup on a topology loaded with NO_MEMATTRS: malloc(0 * sizeof) *)
+    if (k =? K_TOPO) && (i =? P_MEMATTRS) then CZ else CNull
+  | CZ =>
+    if (k =? K_TOPO) && (i =? P_MEMATTRS) then CZ else CZ
   | other => other
   end.
 
@@ -163,10 +169,10 @@ Definition opaque_fields : list (string * N * N) :=
   [("topology.userdata"%string, K_TOPO, P_USERDATA); ("topology.adopted_shmem_addr"%string, K_TOPO, P_ADOPT_ADDR);
    ("topology.userdata_export_cb"%string, K_TOPO, P_EXPORT_CB); ("topology.userdata_import_cb"%string, K_TOPO, P_IMPORT_CB);
    ("topology.backends"%string, K_TOPO, P_BACKENDS); ("topology.get_pci_busid_cpuset_backend"%string, K_TOPO, P_PCI_BACKEND);
-   ("topology.tma"%string, K_TOPO, P_TMA); ("slevels.objs"%string, K_TOPO, P_SLEVEL_FIRST); ("cpukinds"%string, K_TOPO, P_KINDS);
-   ("obj.userdata"%string, K_OBJ, P_OBJ_USERDATA); ("obj.attr.numanode.page_types"%string, K_OBJ, P_OBJ_PAGETYPES);
-   ("obj.children"%string, K_OBJ, P_OBJ_CHILDREN);
-   ("memattr.targets"%string, K_MEMATTRS, 4); ("memattr.initiators"%string, K_TARGETS, 6)].
+   ("topology.tma"%string, K_TOPO, P_TMA); ("slevels.objs(nbobjs=0)"%string, K_TOPO, P_SLEVEL_FIRST); ("cpukinds(nr=0)"%string, K_TOPO, P_KINDS);
+   ("obj.userdata"%string, K_OBJ, P_OBJ_USERDATA); ("obj.attr.numanode.page_types(len=0)"%string, K_OBJ, P_OBJ_PAGETYPES);
+   ("obj.children(arity=0)"%string, K_OBJ, P_OBJ_CHILDREN);
+   ("memattr.targets(nr=0)"%string, K_MEMATTRS, 4); ("memattr.initiators(nr=0)"%string, K_TARGETS, 6)].
 (* class of a field = what [ncell_leaf] does to an opaque pointer there *)
 Definition class_of (k i : N) : pclass :=
   match ncell_leaf 1 k i [] (COpq 1) with COpq _ => PShared | _ => PDropped end.
